@@ -351,6 +351,35 @@ def drivers(chk, F, classes):
             chk.ob("driver|%s|arms" % name, not bad, "every length-dispatched arm uses its own length(s) for the array, the SVector types and the class",
                    body_loc(F, b), found="; ".join(sorted(set(bad))[:6]) or "%d arms consistent" % arms)
             chk.count("driver arms", arms)
+        # (d) the driver's own parameters reach the Rust driver in declaration order (by name: the length-dispatch shadows them),
+        #     and every closure hands its parameters to the Python callable in its own order
+        own = [p_.get("name") for p_ in b["params"] if p_.get("k") == "bind"]
+        own = [x for x in own if x not in ("py", "_py")]
+        order_bad, n_calls = [], 0
+        for n in walk.walk_body(b):
+            c = walk.callee_of(n)
+            if n.get("k") == "call" and c and c.get("local") and c.get("name") == "try_" + name:
+                n_calls += 1
+                rest = own[1:]
+                for q, a in enumerate(n["args"][1:]):
+                    names = {x["res"].get("name") for x in walk.walk(a) if x.get("k") == "path" and x["res"].get("r") == "local"} & set(rest)
+                    if q < len(rest) and names and names != {rest[q]}:
+                        order_bad.append("argument %d of try_%s is built from %s, the driver's parameter %d is `%s`" % (q + 1, name, sorted(names), q + 1, rest[q]))
+                if len(n["args"]) - 1 != len(rest):
+                    order_bad.append("try_%s receives %d arguments for %d driver parameters" % (name, len(n["args"]) - 1, len(rest)))
+            if n.get("k") == "closure" and n.get("params"):
+                pn = [p_.get("name") for p_ in n["params"] if p_.get("k") == "bind"]
+                for m_ in walk.walk(n["body"]):
+                    if m_.get("k") == "mcall" and m_["m"] == "call1" and m_["args"] and m_["args"][0]["k"] == "tup" and len(pn) == len(n["params"]):
+                        got = []
+                        for el in m_["args"][0]["es"]:
+                            nm = [x["res"].get("name") for x in walk.walk(el) if x.get("k") == "path" and x["res"].get("r") == "local" and x["res"].get("name") in pn]
+                            got.append(nm[0] if len(set(nm)) == 1 else None)
+                        if len(got) == len(pn) and None not in got and got != pn and sorted(got) == sorted(pn):
+                            order_bad.append("closure parameters %s are passed to the Python callable as %s" % (pn, got))
+        chk.ob("driver|%s|argument-order" % name, not order_bad and n_calls >= 1,
+               "the driver's parameters reach the Rust driver, and the closure's parameters the Python callable, in declaration order",
+               body_loc(F, b), found="; ".join(sorted(set(order_bad))[:4]) or "%d call(s) in order" % n_calls)
         # (c) matrices are converted by rows
         its = {n["m"] for n in walk.walk_body(b) if n.get("k") == "mcall" and n["m"] in ("row_iter", "column_iter")}
         if name in ("jacobian", "hessian", "partial_hessian"):
